@@ -408,7 +408,7 @@ def gen_hierarchy(rng, depth, allow_hand=True, single_only=False):
                 ka = rng.choice(cands)
                 deco["key"] = ka
                 keyed_here = ka
-            elif r < 0.34:
+            elif r < 0.34 and KAPPA not in inherited:
                 deco["key"] = KAPPA
                 mine[KAPPA] = "any"
                 keyed_here = KAPPA
